@@ -59,16 +59,29 @@ def r3_skip(facts, rep):
                        "unit, operation, operand, call_arguments); no stale count is passed to nth / skip / eat / a grammar "
                        "function or returned (forward may-dataflow; paths through a failed sub-parse are not reported)")
     fns = typestate.grammar_functions(facts)
-    rep.floor("C06-R3", "grammar functions", len(fns), 7)
-    consuming = {P + "skip", P + "bump", P + "bump_node", P + "bump_until", P + "eat"} | {
-        G + n for n in ("value", "unit", "operation", "operation::operand", "call_arguments")}
-    uses = consuming | {P + "nth"}
+    rep.floor("C06-R3", "grammar functions", len(fns), 3)
+    # roles from the call graph, not from names: a parser method consumes tokens iff it can reach Builder::token; a grammar
+    # function consumes iff it can reach a consuming parser method; eat-like = consuming parser method returning Result<bool>
+    from ..callgraph import CallGraph
+    cg = CallGraph(facts)
+    is_token = lambda n: (n.startswith("syntree::Builder") or n.startswith("syntree::builder::Builder")) and n.endswith("::token")
+    pmethods = [b for b in facts.lib_bodies() if b.path.startswith(P) and "{closure" not in b.path and b.promoted < 0]
+    cons_p = {b.path for b in pmethods if any(is_token(x) for x in cg.reachable([b.path]))}
+    eat_like = {b.path for b in pmethods if b.path in cons_p and "Result<bool" in b.local_ty(0).replace(" ", "").replace("std::result::", "")}
+    cons_g = {b.path for b in facts.lib_bodies() if b.path.startswith(G) and "{closure" not in b.path and b.promoted < 0
+              and cg.reachable([b.path]) & cons_p}
+    consuming = cons_p | cons_g
+    skip_takers = {b.path for b in pmethods if any(b.local_ty(i) == typestate.SKIP_TY for i in range(2, b.arg_count + 1))}
+    uses = consuming | skip_takers
+    rep.ob("C06-R3", "roles", {P + "bump", P + "skip"} <= cons_p or len(cons_p) >= 3,
+           "token-consuming parser methods: %s; consuming only when true: %s; consuming grammar functions: %d" % (
+               sorted(x.split("::")[-1] for x in cons_p), sorted(x.split("::")[-1] for x in eat_like), len(cons_g)))
     total_uses = 0
     n_cs = 0
     for b in fns:
-        viol, stats = typestate.analyse(facts, b, consuming, uses)
+        viol, stats = typestate.analyse(facts, b, consuming, uses, eat_like)
         total_uses += stats["uses"]
-        n_cs += len([1 for _ in b.calls(lambda n: n == P + "count_skip")])
+        n_cs += len([1 for _ in b.calls(lambda n: n.startswith(P) and n.endswith("count_skip"))])
         seen = set()
         for what, site, var in viol:
             key = "%s:%s:%s" % (b.path, var, what)
@@ -79,99 +92,284 @@ def r3_skip(facts, rep):
         rep.ob("C06-R3", "fn:%s" % b.path, not viol, "%s: %d Skip local(s), %d use(s), %d stale" % (b.path, stats["skip_locals"], stats["uses"], len(viol)),
                b.site(), sample={"fn": b.path, **stats})
     rep.count("uses of Skip values", total_uses)
-    rep.floor("C06-R3", "uses of Skip values", total_uses, 20)
-    rep.floor("C06-R3", "count_skip call sites", n_cs, 8)
+    rep.floor("C06-R3", "uses of Skip values", total_uses, 12)
+    rep.floor("C06-R3", "count_skip call sites", n_cs, 4)
 
 
 def r4_offset(facts, rep):
-    rep.rule("C06-R4", "offset agreement: Parser::nth(skip, n) peeks at index skip.0 + n and Parser::eat(skip, expected) tests "
-                       "its expectations at index skip.0 + n as well (then consumes skip.0 blanks and the expected tokens); "
-                       "Parser::skip consumes exactly skip.0 tokens; count_skip counts leading WHITESPACE tokens only")
-    for fn in ("nth", "eat"):
-        b = anchor(rep, "C06-R4", facts, P + fn)
-        if b is None:
-            continue
-        gets = flow.calls_named(b, lambda n: n == P + "get")
-        rep.floor("C06-R4", "get() calls in " + fn, len(gets), 1)
-        for bid, t, sp, _ in gets:
-            ls = flow.slice_back(b, t["args"][1])
-            adds = [l for l in ls if l[0] == "binop" and l[1].startswith("Add")]
-            okk = False
-            for l in adds:
-                for blk, i, s in b.stmts():
-                    if blk["id"] == l[2] and s["rv"]["k"] == "binop" and s["rv"]["op"].startswith("Add"):
-                        parts = set()
-                        for o in (s["rv"]["a"], s["rv"]["b"]):
-                            for x in flow.slice_back(b, o):
-                                if x[0] == "param":
-                                    parts.add((x[1], x[2]))
-                                elif x[0] == "call":
-                                    parts.add(("call", x[1].split("::")[-1]))
-                                elif x[0] == "const":
-                                    parts.add(("const", x[1]))
-                        # skip is parameter 2 (field 0); the other summand is n (nth) or the enumerate index (eat)
-                        okk = okk or any(p[0] == 2 for p in parts if isinstance(p[0], int))
-            rep.ob("C06-R4", "%s:index=skip+n" % fn, okk, "%s looks at the token queue at %s" % (fn, "skip.0 + n" if okk else "an index that does not include skip.0"),
-                   b.site(sp))
-    sk = anchor(rep, "C06-R4", facts, P + "skip")
-    if sk is not None:
-        bumps = flow.calls_named(sk, lambda n: n == P + "bump")
-        rng = [s for blk, i, s in sk.stmts() if s["rv"]["k"] == "aggregate" and "Range" in s["rv"]["kind"].get("path", "")]
-        okk = len(bumps) == 1 and len(rng) == 1
-        if okk:
-            ops = rng[0]["rv"]["ops"]
-            lo = F.const_val(ops[0]) if ops[0]["k"] == "const" else None
-            hi = {x[1:] for x in flow.slice_back(sk, ops[1]) if x[0] == "param"}
-            okk = lo == 0 and hi == {(2, ("0",))} or lo == 0 and any(h[0] == 2 for h in hi)
-        rep.ob("C06-R4", "skip:consumes-skip.0", okk, "Parser::skip bumps once per index in 0..skip.0", sk.site())
-    cs = anchor(rep, "C06-R4", facts, P + "count_skip")
-    if cs is not None:
-        ws = facts.discr_of("syntax::parser::Syntax", "WHITESPACE")
-        sw = [t for blk, t, sp in cs.terms() if t["k"] == "switch" and any(int(v) == ws for v, _ in t["targets"])]
-        cons = [n for b_, t, sp, n in cs.calls() if n in (P + "bump", P + "skip", P + "bump_node", P + "eat")]
-        rep.ob("C06-R4", "count_skip:counts-whitespace", len(sw) >= 1 and not cons, "count_skip tests for WHITESPACE (%d switch(es)) and consumes %s" % (len(sw), cons or "nothing"),
-               cs.site())
+    rep.rule("C06-R4", "offset agreement, by summaries of the parser primitives on an abstract parser state (the lexer a stream of "
+                       "fresh tokens, the queue a sequence, the builder an effect log): nth(skip, n) returns the kind of token "
+                       "skip.0 + n (EOF past the end); eat(skip, expected) returns true only on paths where token skip.0 + i was "
+                       "compared equal to expected[i] for every i, and then has consumed exactly the first skip.0 + len(expected) "
+                       "tokens, and consumes nothing when it returns false; skip(skip) consumes exactly skip.0 tokens; count_skip "
+                       "returns n only where tokens 0..n were tested to be WHITESPACE and token n not, and consumes nothing")
+    from . import c12
+    from ..absint.stdmodels import Seq
+    adt = facts.adt("syntax::parser::Syntax")
+    vnames = [v["name"] for v in adt["variants"]] if adt else []
+    ws = facts.discr_of("syntax::parser::Syntax", "WHITESPACE")
+    eofd = facts.discr_of("syntax::parser::Syntax", "EOF")
+
+    def run(fn, args):
+        b = facts.fn(P + fn)
+        dom = c12.ParserDomain(facts)
+        it = core.Interp(facts, dom, budget=300000)
+        pv, names = c12.parser_value(facts, ())
+        outs = it.run(b, [Ref(0, 0)] + args, {(0, 0): pv})
+        res = []
+        for o in outs:
+            log = dom.log(o.store)
+            if any(e[0] == "fail" for e in log):
+                continue
+            pv2 = it.read_ref(o.store, Ref(0, 0))
+            buf = pv2.field(names.index("buf")) if isinstance(pv2, Agg) else None
+            delivered = [e for e in log if e[0] == "token"]
+            res.append((o, delivered, buf, dict((repr(p_), b_) for p_, b_ in dom.pc(o.store))))
+        return b, res
+
+    def skipv(k):
+        return Agg("adt", "syntax::parser::Skip", 0, "Skip", (Const(k),))
+
+    def kind_of(k):
+        return Sym("lkind%d" % k)
+
+    def delivered_ok(delivered, n):
+        return len(delivered) == n and all(d[1] == kind_of(i) and d[2] == Sym("llen%d" % i) for i, d in enumerate(delivered))
+
+    for fn in ("nth", "eat", "skip", "count_skip"):
+        if anchor(rep, "C06-R4", facts, P + fn) is None:
+            return
+    # ---- nth ----
+    bad = []
+    n_paths = 0
+    try:
+        for sk in (0, 1, 2):
+            for n in (0, 1):
+                b, res = run("nth", [skipv(sk), Const(n)])
+                for o, delivered, buf, pc in res:
+                    n_paths += 1
+                    lexed = o.store.get(("lexed",), 0)
+                    v = o.value
+                    if delivered:
+                        bad.append("nth consumes tokens")
+                    if o.kind != "ret":
+                        bad.append("nth(%d, %d): %s %s" % (sk, n, o.kind, o.value))
+                    elif lexed > sk + n:
+                        if v != kind_of(sk + n):
+                            bad.append("nth(skip=%d, n=%d) returns %r; specified the kind of token %d" % (sk, n, v, sk + n))
+                    else:
+                        if not (isinstance(v, Agg) and v.vi == eofd):
+                            bad.append("nth(skip=%d, n=%d) past the end returns %r; specified EOF" % (sk, n, v))
+    except core.Undecided as e:
+        bad.append("undecided: %s" % e)
+    rep.ob("C06-R4", "nth:index=skip+n", not bad and n_paths >= 12, "; ".join(sorted(set(bad))[:3]) if bad else
+           "nth(skip, n) is the kind of token skip.0 + n, EOF past the end (%d paths)" % n_paths, facts.fn(P + "nth").site())
+    # ---- eat ----
+    bad = []
+    n_true = n_false = 0
+    try:
+        for sk in (0, 1, 2):
+            for exp in ((Sym("e0"),), (Sym("e0"), Sym("e1"))):
+                b, res = run("eat", [skipv(sk), Seq(exp)])
+                for o, delivered, buf, pc in res:
+                    if o.kind != "ret":
+                        bad.append("eat: %s %s" % (o.kind, o.value))
+                        continue
+                    v = o.value
+                    r = v.field(0) if isinstance(v, Agg) and v.path == "std::result::Result" and v.vi == 0 else None
+                    if r == Const(True):
+                        n_true += 1
+                        for i, e in enumerate(exp):
+                            key = repr(T("kind_eq", *sorted((e, kind_of(sk + i)), key=repr)))
+                            if pc.get(key) is not True:
+                                bad.append("eat(skip=%d, %d expected) returns true on a path where token %d was not compared equal to expected[%d] (path %s)" % (sk, len(exp), sk + i, i, pc))
+                        if not delivered_ok(delivered, sk + len(exp)):
+                            bad.append("eat(skip=%d, %d expected) = true consumes %s; specified exactly the first %d tokens" % (sk, len(exp), [d[1] for d in delivered], sk + len(exp)))
+                    elif r == Const(False):
+                        n_false += 1
+                        if delivered:
+                            bad.append("eat returns false after consuming %s" % [d[1] for d in delivered])
+                    else:
+                        bad.append("eat returns %r" % (v,))
+    except core.Undecided as e:
+        bad.append("undecided: %s" % e)
+    rep.ob("C06-R4", "eat:index=skip+n", not bad and n_true >= 6 and n_false >= 6, "; ".join(sorted(set(bad))[:3]) if bad else
+           "eat compares token skip.0 + i with expected[i], consumes skip.0 + len(expected) tokens iff all match (%d true / %d false paths)" % (n_true, n_false),
+           facts.fn(P + "eat").site())
+    # ---- skip ----
+    bad = []
+    n_paths = 0
+    try:
+        for sk in (0, 1, 2, 3):
+            b, res = run("skip", [skipv(sk)])
+            for o, delivered, buf, pc in res:
+                n_paths += 1
+                lexed = o.store.get(("lexed",), 0)
+                if o.kind != "ret":
+                    bad.append("skip: %s %s" % (o.kind, o.value))
+                elif not delivered_ok(delivered, min(sk, lexed)):
+                    bad.append("skip(%d) consumes %s with %d token(s) available; specified the first %d" % (sk, [d[1] for d in delivered], lexed, min(sk, lexed)))
+    except core.Undecided as e:
+        bad.append("undecided: %s" % e)
+    rep.ob("C06-R4", "skip:consumes-skip.0", not bad and n_paths >= 4, "; ".join(sorted(set(bad))[:3]) if bad else
+           "Parser::skip(skip) consumes exactly skip.0 tokens (%d paths)" % n_paths, facts.fn(P + "skip").site())
+    # ---- count_skip ----
+    bad = []
+    counts = set()
+    try:
+        b, res = run("count_skip", [])
+        for o, delivered, buf, pc in res:
+            if o.kind != "ret":
+                bad.append("count_skip: %s %s" % (o.kind, o.value))
+                continue
+            v = o.value
+            n = v.field(0).v if isinstance(v, Agg) and v.path == "syntax::parser::Skip" and isinstance(v.field(0), Const) else None
+            if n is None:
+                bad.append("count_skip returns %r" % (v,))
+                continue
+            counts.add(n)
+            if delivered:
+                bad.append("count_skip consumes tokens")
+            lexed = o.store.get(("lexed",), 0)
+            for i in range(n + 1):
+                key = repr(T("==", T("discr", kind_of(i)), Const(ws)))
+                want = i < n
+                got = pc.get(key)
+                if want and got is not True:
+                    bad.append("count_skip returns %d on a path where token %d was not tested to be WHITESPACE" % (n, i))
+                if not want and not (got is False or lexed <= n):
+                    bad.append("count_skip returns %d although token %d was not tested to be something else (path %s)" % (n, n, pc))
+    except core.Undecided as e:
+        bad.append("undecided: %s" % e)
+    rep.ob("C06-R4", "count_skip:counts-whitespace", not bad and len(counts) >= 3, "; ".join(sorted(set(bad))[:3]) if bad else
+           "count_skip returns n exactly where tokens 0..n are WHITESPACE and token n is not (counts seen: %s)" % sorted(counts), facts.fn(P + "count_skip").site())
 
 
 # ---- R5: groups and raw tokens ---------------------------------------------------------------------------------
+GRAMMAR_UNITS = ("root", "operation", "unit", "value", "call_arguments")
+
+
+class GroupDomain(EffectDomain):
+    """Runs one grammar function with the parser's methods and the grammar's (recursive) entry points as logged effects;
+    private helpers are followed.  nth() is scripted for the first token."""
+
+    inline_depth = 8
+
+    def __init__(self, facts, first_kind):
+        super().__init__({}, oracle=self._oracle)
+        self.facts = facts
+        self.uninterp = lambda n: facts.fn(n) is None
+        self.first_kind = first_kind
+
+    def fresh(self, store, what):
+        n = store.get(("fresh",), 0)
+        s2 = dict(store)
+        s2[("fresh",)] = n + 1
+        return Sym("%s%d" % (what, n)), s2
+
+    def _oracle(self, dom, it, name, args, vals, store):
+        if name.startswith(P):
+            m = name[len(P):]
+            rest = tuple(vals[1:])
+            if m == "nth":
+                k = store.get(("nth",), 0)
+                s2 = dict(store)
+                s2[("nth",)] = k + 1
+                if k == 0:
+                    adt = self.facts.adt("syntax::parser::Syntax")
+                    vi = [v["name"] for v in adt["variants"]].index(self.first_kind)
+                    return [(Agg("adt", "syntax::parser::Syntax", vi, self.first_kind, ()), self.with_log(s2, ("nth",) + rest))]
+                return [(Sym("kind%d" % k), self.with_log(s2, ("nth",) + rest))]
+            if m == "checkpoint":
+                c, s2 = self.fresh(store, "cp")
+                return [(ok(c), self.with_log(s2, ("checkpoint", c)))]
+            if m == "count_skip":
+                c, s2 = self.fresh(store, "skip")
+                return [(c, self.with_log(s2, ("count_skip", c)))]
+            if m == "eat":
+                st = self.with_log(store, ("eat",) + rest)
+                return [(ok(Const(True)), self.with_log(st, ("eat-result", True))), (ok(Const(False)), self.with_log(st, ("eat-result", False)))]
+            if m in ("close_at", "error_node_at"):
+                return [(ok(UNIT), self.with_log(store, ("close",) + rest))]
+            return [(ok(UNIT), self.with_log(store, (m,) + rest))]
+        if name.startswith(G) and name[len(G):] in GRAMMAR_UNITS:
+            m = name[len(G):]
+            rest = tuple(vals[1:])
+            st = self.with_log(store, (m,) + rest)
+            c, s2 = self.fresh(st, "skip" if m == "operation" else "node")
+            if m == "call_arguments":
+                return [(ok(Const(True)), s2), (ok(Const(False)), st)]
+            return [(ok(some(c)), self.with_log(s2, (m + "-result", c))), (ok(NONE), self.with_log(st, (m + "-result", None)))]
+        return None
+
+
 def r5_groups(facts, rep):
-    rep.rule("C06-R5", "a parenthesised group is a node of its own: in grammar::value every successful path of the `(` arm passes "
-                       "close_at on the checkpoint taken before the `(` token; the query iterator advances with next_node(), so raw "
-                       "tokens of the root (blanks at either end) are not evaluated as results")
+    rep.rule("C06-R5", "a parenthesised group is a node of its own: summary of grammar::value for a first token `(` (parser methods "
+                       "and the grammar's recursive entry points as logged effects, private helpers followed): on every path that "
+                       "returns Some(c) the checkpoint c was taken after the pending blanks were skipped and before the `(` token "
+                       "was consumed, the inner operation and then `)` were parsed, and close_at(c, OPERATION) is the last effect; "
+                       "every other path returns None.  The query iterator advances with next_node(), so raw tokens of the root "
+                       "(blanks at either end) are not evaluated as results")
     body = anchor(rep, "C06-R5", facts, G + "value")
     if body is not None:
-        cfg = body.cfg
-        op = facts.discr_of("syntax::parser::Syntax", "OPEN_PAREN")
-        nth = flow.calls_named(body, lambda n: n == P + "nth")
-        arm = None
-        for bid, t, sp, _ in nth:
-            if bid != 0 and not cfg.dominates(bid, bid):
-                pass
-        # the first switch on the peeked kind
-        for blk, t, sp in body.terms():
-            if t["k"] == "switch" and any(int(v) == op for v, _ in t["targets"]) and cfg.dominates(blk["id"], blk["id"]):
-                m = {int(v): x for v, x in t["targets"]}
-                if arm is None and len(m) >= 3:
-                    arm = (blk["id"], m[op])
-        if rep.ob("C06-R5", "value:paren-arm", arm is not None, "the `(` arm of value() found", body.site()):
-            sw, entry = arm
-            region = cfg.blocks_only_via_edge(sw, entry) | {entry}
-            closes = {b_ for b_, t, sp, n in flow.calls_named(body, lambda n: n == P + "close_at") if b_ in region}
-            # successful returns of the arm: Ok(Some(..)) constructions in the region
-            succ = [blk["id"] for blk, i, s in body.stmts() if blk["id"] in region and s["rv"]["k"] == "aggregate"
-                    and s["rv"]["kind"].get("variant") == "Some" and any(l[0] == "call" and l[1] == P + "checkpoint" for l in flow.slice_back(body, s["rv"]["ops"][0]))]
-            good = bool(succ) and bool(closes) and all(cfg.every_path_passes(entry, {s_}, closes) for s_ in succ)
-            rep.ob("C06-R5", "value:paren-group-closed", good,
-                   "the `(` arm returns Some(checkpoint) on %d path(s); %s" % (len(succ), "each passes close_at" if good else "NOT every one passes a close_at (the group would not be a node)"),
-                   body.site(body.blocks[entry]["term"]["span"]))
-            # the checkpoint closed is taken before the bump of `(`
-            for c in closes:
-                t = body.blocks[c]["term"]["t"]
-                cps = [l for l in flow.slice_back(body, t["args"][1]) if l[0] == "call" and l[1] == P + "checkpoint"]
-                bumps = [b_ for b_, tt, sp, n in flow.calls_named(body, lambda n: n == P + "bump") if b_ in region]
-                before = bool(cps) and bool(bumps) and all(cfg.dominates(cp[2], min(bumps)) and cp[2] != min(bumps) for cp in cps)
-                rep.ob("C06-R5", "value:paren-checkpoint-before-token", before, "the group's checkpoint is taken %s the `(` token is bumped" % ("before" if before else "AFTER"),
-                       body.site(body.blocks[c]["term"]["span"]))
+        dom = GroupDomain(facts, "OPEN_PAREN")
+        it = core.Interp(facts, dom, budget=200000)
+        bad = []
+        n_some = n_none = 0
+        opn = facts.discr_of("syntax::parser::Syntax", "OPERATION")
+        cpar = facts.discr_of("syntax::parser::Syntax", "CLOSE_PAREN")
+        try:
+            outs = it.run(body, [Sym("parser"), Sym("skip_in")], {})
+        except core.Undecided as e:
+            outs = []
+            bad.append("undecided: %s" % e)
+        consuming = ("bump", "bump_node", "bump_until", "eat", "operation", "unit", "value", "call_arguments")
+        for o in outs:
+            if o.kind != "ret":
+                bad.append("%s %s" % (o.kind, o.value))
+                continue
+            v = o.value
+            log = dom.log(o.store)
+            if any(e[0] == "fail" for e in log):
+                continue
+            r = v.field(0) if isinstance(v, Agg) and v.path == "std::result::Result" and v.vi == 0 else None
+            if r is None:
+                continue  # Err: the parse is abandoned
+            names = [e[0] for e in log]
+            if isinstance(r, Agg) and r.vi == 1:
+                n_some += 1
+                c = r.field(0)
+                cps = [i_ for i_, e in enumerate(log) if e[0] == "checkpoint" and e[1] == c]
+                firstc = next((i_ for i_, e in enumerate(log) if e[0] in consuming), None)
+                skips = [i_ for i_, e in enumerate(log) if e[0] == "skip" and e[1] == Sym("skip_in")]
+                if not cps:
+                    bad.append("returns Some(%r), which is not a checkpoint taken in this call" % (c,))
+                    continue
+                if firstc is None or not cps[0] < firstc or log[firstc][0] != "bump":
+                    bad.append("the group's checkpoint is not taken before the `(` token is consumed (effects: %s)" % names)
+                if not skips or not skips[0] < cps[0]:
+                    bad.append("the blanks before `(` are not skipped before the group's checkpoint is taken (effects: %s)" % names)
+                ops = [i_ for i_, e in enumerate(log) if e[0] == "operation"]
+                eats = [i_ for i_, e in enumerate(log) if e[0] == "eat"]
+                if len(ops) != 1 or len(eats) != 1 or not (firstc is not None and firstc < ops[0] < eats[0]):
+                    bad.append("the inner expression and then `)` are not parsed after `(` (effects: %s)" % names)
+                else:
+                    ex = log[eats[0]][2] if len(log[eats[0]]) > 2 else None
+                    exk = [x.vi for x in getattr(ex, "items", ())] if ex is not None else None
+                    if exk != [cpar]:
+                        bad.append("after the inner expression eat() expects %r; specified [CLOSE_PAREN]" % (ex,))
+                    if ("eat-result", True) not in log or ("operation-result", None) in log:
+                        bad.append("a group is reported although the inner expression or `)` failed")
+                last = log[-1]
+                if not (last[0] == "close" and last[1] == c and isinstance(last[2], Agg) and last[2].vi == opn):
+                    bad.append("the last effect is %r; specified close_at(the group's checkpoint, OPERATION)" % (last,))
+            else:
+                n_none += 1
+                if any(e[0] == "close" for e in log):
+                    bad.append("a path that returns None closes a node")
+        rep.ob("C06-R5", "value:paren-group", not bad and n_some >= 1 and n_none >= 2, "; ".join(sorted(set(bad))[:3]) if bad else
+               "`(`: blanks skipped, checkpoint, `(` consumed, operation, `)`, close_at(checkpoint, OPERATION) on the %d successful path(s); None otherwise (%d)" % (n_some, n_none),
+               body.site(), sample={"some_paths": n_some, "none_paths": n_none})
     q = None
     for b in facts.lib_bodies():
         if b.path.startswith("<query::Query<") and b.path.endswith("as std::iter::Iterator>::next"):
@@ -233,9 +431,10 @@ class StackDomain(EffectDomain):
         if name == P + "checkpoint":
             c, s2 = self.fresh(store, "cp")
             return [(ok(c), s2)]
-        if name == G + "operation::operand":
+        # the operand parsers (recursive entry points of the grammar) are effects: which one is called is the is_unit flag
+        if name in (G + "value", G + "unit"):
             c, s2 = self.fresh(store, "operand")
-            return [(ok(some(c)), self.with_log(s2, ("operand", c, vals[2])))]
+            return [(ok(some(c)), self.with_log(s2, ("operand", c, Const(name == G + "unit"))))]
         if name == G + "operation::op":
             i = store.get(("opi",), 0)
             s2 = dict(store)
@@ -340,18 +539,15 @@ def r6_stack(facts, rep, pr, tier):
     for tok, (p, kind, unit) in pr.items():
         pr_info.setdefault(p, (kind, unit))
     cfg = body.cfg
-    operand_calls = flow.calls_named(body, lambda n: n == G + "operation::operand")
     stack_l = [l["id"] for l in body.locals if l["ty"].startswith("std::vec::Vec<(syntree::Checkpoint")]
-    if not rep.ob("C06-R6", "anchor:stack", len(operand_calls) == 1 and len(stack_l) == 1, "operation() has one operand call and one checkpoint stack"):
+    if not rep.ob("C06-R6", "anchor:stack", len(stack_l) == 1, "operation() has one checkpoint stack (%d Vec<(Checkpoint, ..)> locals)" % len(stack_l)):
         return
     stack_local = stack_l[0]
-    ob = operand_calls[0][0]
-    # loop head: the innermost loop header that dominates the operand call
-    heads = [h for h in cfg.reach0 if cfg.dominates(h, ob) and any(cfg.dominates(h, x) for x in cfg.pred[h] if x in cfg.reachable_after(h))]
+    # loop head: the outermost loop of operation() (the operand / operator loop)
+    heads = [h for h in cfg.reach0 if any(cfg.dominates(h, x) for x in cfg.pred[h])]
     if not rep.ob("C06-R6", "anchor:loop", bool(heads), "the operand loop of operation() found"):
         return
-    head = max(heads, key=lambda h: len(cfg.dom[h]))
-    first_l = [l["id"] for l in body.locals if l["name"] == "first" and l["ty"] == "bool"]
+    head = min(heads, key=lambda h: len(cfg.dom[h]))
 
     def run_from(store, script):
         dom = StackDomain(facts, script, pr_info)
@@ -367,11 +563,14 @@ def r6_stack(facts, rep, pr, tier):
     tmpl = [o for o in outs0 if o.kind == "stop"]
     if not rep.ob("C06-R6", "anchor:template", len(tmpl) == 1, "the loop head is reached once from the entry (%d)" % len(tmpl)):
         return
-    tstore = tmpl[0].store
+    # the steady state of the loop's flags: the store at the head after one real turn (whatever the flags are called)
+    any_p = sorted({v[0] for v in pr.values()})[0]
+    dom1, it1, outs1 = run_from(tmpl[0].store, [any_p])
+    warm = [o for o in outs1 if o.kind == "stop"]
+    if not rep.ob("C06-R6", "anchor:warm-up", len(warm) == 1, "one turn from the entry state returns to the loop head (%d)" % len(warm)):
+        return
+    tstore = warm[0].store
     frame = 1
-    open_cp = None
-    for e in range(0, 3):
-        pass
     # all strictly increasing stacks
     stacks = []
     for r in range(1, len(levels) + 1):
@@ -383,8 +582,6 @@ def r6_stack(facts, rep, pr, tier):
         vec = Agg("vec", None, None, None, tuple(Agg("tuple", None, None, None, (cp, Const(p), Const(u))) for cp, p, u in entries))
         st = dict(tstore)
         st[(frame, stack_local)] = vec
-        for fl in first_l:
-            st[(frame, fl)] = Const(False)
         st[("opi",)] = 0
         st[("log",)] = ()
         for p in levels:
